@@ -25,8 +25,8 @@ theorem pin_genDefVal : genDefVal = [
 /-- IntermediateCodeGen.getBaseType (pysmi/codegen/intermediate.py) -/
 theorem pin_getBaseType : getBaseType = [
     "if", "raise:error.PySmiSemanticError", "call:error.PySmiSemanticError", "if", "raise:error.PySmiSemanticError",
-    "call:error.PySmiSemanticError", "call:self.symbolTable[module][symName].get", "if",
-    "raise:error.PySmiSemanticError", "call:error.PySmiSemanticError", "if", "return:value", "call:self.getBaseType",
-    "if", "if", "return:value"] := by decide
+    "call:error.PySmiSemanticError", "if", "raise:error.PySmiSemanticError", "call:error.PySmiSemanticError",
+    "call:self.symbolTable[module][symName].get", "if", "raise:error.PySmiSemanticError",
+    "call:error.PySmiSemanticError", "if", "return:value", "call:self.getBaseType", "if", "if", "return:value"] := by decide
 
 end Pysmi.Pins.SkelC05
